@@ -408,6 +408,9 @@ void MDSDRV_Data::add_pitch_envelope(uint16_t id, const Tag& tag)
 	}
 	else
 	{
+		// the loop position is a single byte
+		if(loop_pos > 255)
+			throw InputError(nullptr, stringf("error: pitch envelope @M%d has its loop mark behind the 256th node", id).c_str());
 		env_data.push_back(0x7f);
 		env_data.push_back(loop_pos);
 	}
@@ -446,6 +449,9 @@ void MDSDRV_Data::add_extended_pitch_envelope(uint16_t id, const Tag& tag)
 	}
 	else
 	{
+		// the loop position is a single byte
+		if(loop_pos > 255)
+			throw InputError(nullptr, stringf("error: pitch envelope @M%d has its loop mark behind the 256th node", id).c_str());
 		env_data.back() = loop_pos;
 	}
 	pitch_map[id] = add_unique_data(env_data);
